@@ -109,6 +109,9 @@ void run_case(Rng& rng, std::uint64_t idx)
     if (q.n > nmax) q.n = nmax;
     q.s = rng.next();
     q.scale = std::ldexp(T(1) + T(rng.u01l()), int(rng.below(40)) - 20);
+    // running sums within `digits` binary orders of the smallest normal number: the compensation term is subnormal there
+    bool near_min = rng.below(4) == 0;
+    if (near_min) q.scale = std::ldexp(T(1) + T(rng.u01l()), std::numeric_limits<T>::min_exponent - 1 + int(rng.below(std::numeric_limits<T>::digits + 3)));
     q.sign = rng.below(2) ? T(1) : T(-1);
     bool with_dist = rng.below(3) == 0;
     std::size_t bins = rng.range(1, 4);
@@ -133,7 +136,7 @@ void run_case(Rng& rng, std::uint64_t idx)
     }
     g = 0;
     J info;
-    info.s("T", tname<T>::get()).s("sequence", kind_name(q.kind)).u("N", q.n).f("scale", q.scale).f("sign", q.sign).b("with_distribution", with_dist).u("bins", with_dist ? bins : 0);
+    info.s("T", tname<T>::get()).s("sequence", kind_name(q.kind)).u("N", q.n).f("scale", q.scale).b("near_min_normal", near_min).f("sign", q.sign).b("with_distribution", with_dist).u("bins", with_dist ? bins : 0);
     ++ctx().evaluations;
     count("values_summed", q.n);
     if (st.i != q.n) { viol("harness:call-count", J(info).u("calls", st.i)); return; }
@@ -159,6 +162,7 @@ void run_case(Rng& rng, std::uint64_t idx)
     }
     if (naive_breaks) { count("sequences_where_naive_summation_breaks_bound"); nontrivial(hash_str(info.str())); }
     if (q.n >= 1000000) count("runs_with_N>=1e6");
+    if (near_min && q.kind != 4) count("runs_with_sums_near_the_smallest_normal_number");
     if (naive_breaks) sample(info, 4);
 }
 
